@@ -284,7 +284,9 @@ impl<'r> Renderer<'r> {
         } else if k == 7 {
             self.push_raw("\t");
         } else if k == 8 {
-            self.push_raw("\u{a0}");
+            // any Unicode blank other than the line feed is ignorable
+            let b = *self.rng.pick(&["\u{a0}", "\u{a0}", "\u{2003}", "\u{3000}", "\u{b}", "\u{c}", "\u{85}", "\u{202f}", "\u{1680}"]);
+            self.push_raw(b);
         } else {
             self.push_raw(" ");
         }
